@@ -58,7 +58,8 @@ def check_move_footprint(ctx, prog, I, mvs):
     ctx.rule('C02.2', 'PieceBoard::move_piece(s, d): on each of the 8 bitboards F the source bit becomes 0, the '
                       'destination bit depends on exactly {F[s], F[dst]}, every other bit is an exact copy')
     fn = prog.one('PieceBoard::move_piece')
-    if not ctx.anchor('fn PieceBoard::move_piece', fn is not None):
+    from .rules_geom import _opt
+    if not _opt(ctx, 'PieceBoard::move_piece', fn):
         return
     for (s, d) in mvs:
         dst = G.step(s, d)
@@ -121,7 +122,9 @@ def check_capture_footprint(ctx, prog, I):
                         % (G.name(i), sorted(pd), sorted(want - pd), sorted(pd - want)))
     # removal
     rfn = prog.one('PieceBoard::remove_trapped_pieces')
-    if not ctx.anchor('fn remove_trapped_pieces', rfn is not None):
+    from .rules_geom import _opt
+    if not _opt(ctx, 'PieceBoard::remove_trapped_pieces', rfn):
+        # the removal is decided at the public level (C02.5: every stored bit after a step against the specification)
         return
     flag, nb = run_remove_trapped(I, prog, board)
     f = board_fields(prog, nb)
@@ -147,10 +150,48 @@ def check_capture_footprint(ctx, prog, I):
                     if b is not alt and not (B.deps(b) == B.deps(want) and (((('#', tr.bits[j].n), False) in B.must(b)) or True) and _same_removal(b, name, j, tr)):
                         bad = 'trap bit %s is not "old bit and not trapped_piece_bits()[%s]"' % (G.name(j), G.name(j))
                         break
+        if bad and 'is not "old bit' in bad:
+            # another spelling of the same update (a different early-out, a mask built in another order): the two functions of the
+            # ~14 board bits around one trap are compared as exact truth tables
+            try:
+                bad = _exact_removal(prog, name)
+            except Undecided as e:
+                bad = bad + ' (exact comparison undecided: %s)' % e
         ctx.ob('removal on board %s: non-trap bits copied, trap bits and-ed with the complement of the reported capture' % name,
                bad is None, sample=(name == 'p1'))
         if bad:
             ctx.finding('C02.3', rfn, 'remove:' + name, 'board %s: %s' % (name, bad))
+
+
+def _exact_removal(prog, name):
+    """trap bits of board `name` after remove_trapped_pieces == old bit & !expected capture, with exact truth tables (K = 14)"""
+    from .rules_hash import exact_equal
+    old_k = B.K
+    B.K = 14
+    try:
+        I2 = inputs.make_interp(prog, fuel=20000000)
+        board = inputs.board(prog)
+        tr = run_trapped_bits(I2, prog, board)
+        _flag, nb = run_remove_trapped(I2, prog, board)
+        f = board_fields(prog, nb)
+        fb = board_fields(prog, board)
+        for j in G.TRAPS:
+            got = f[name].bits[j]
+            # expected capture at j from first principles: occupied and no friendly neighbour
+            gold_n = C0
+            silv_n = C0
+            for q in G.neighbours(j):
+                gold_n = B.bor(gold_n, fb['p1'].bits[q])
+                silv_n = B.bor(silv_n, B.band(fb['all'].bits[q], B.bnot(fb['p1'].bits[q])))
+            mine = B.bite(fb['p1'].bits[j], gold_n, silv_n)
+            cap = B.band(fb['all'].bits[j], B.bnot(mine))
+            want = B.band(fb[name].bits[j], B.bnot(cap))
+            want2 = B.band(fb[name].bits[j], B.bnot(tr.bits[j]))
+            if not (exact_equal(got, want) or exact_equal(got, want2)):
+                return 'trap bit %s is not "old bit and not captured there" (compared as exact truth tables)' % G.name(j)
+        return None
+    finally:
+        B.K = old_k
 
 
 def _same_removal(b, name, j, tr):
@@ -166,8 +207,13 @@ def check_take_action_composition(ctx, prog, I, mvs):
     if not ctx.anchor('fn GameState::take_action', fn is not None):
         return
     kb = inputs.field_index(prog, 'engine::GameState', 'piece_board')
+    helpers = prog.one('PieceBoard::move_piece') is not None and prog.one('PieceBoard::remove_trapped_pieces') is not None
+    bfn = prog.one('PieceBoard::take_action')
+    if not helpers:
+        ctx.notes.append('move_piece / remove_trapped_pieces are not both present: the stored board is compared with '
+                         'PieceBoard::take_action, whose bits C02.5 decides against the specification')
     for (gold, step) in ((True, 0), (False, 3), (True, 2)):
-        for (s, d) in mvs:
+        for (s, d) in (mvs if (helpers or bfn is not None) else ()):
             gsv = inputs.play_state(prog, gold, step, trapped='sym')
             st = State({})
             gs = inputs.ref_to(I, st, 'gs', gsv)
@@ -179,8 +225,13 @@ def check_take_action_composition(ctx, prog, I, mvs):
                 ctx.finding('UNDECIDED', fn, 'move', 'abstract interpretation gave up: %s' % e)
                 return
             got = r.fields[kb].fields[0]
-            moved = run_move_piece(I, prog, s, d)
-            _flag, want = run_remove_trapped(I, prog, moved)
+            if helpers:
+                moved = run_move_piece(I, prog, s, d)
+                _flag, want = run_remove_trapped(I, prog, moved)
+            else:
+                st3 = State({})
+                r3, _ = I.call_fn(bfn, [inputs.ref_to(I, st3, 'pb', gsv.fields[kb]), inputs.ref_to(I, st3, 'act', I.deref(st, act))], st3)
+                want = r3.fields[0]
             ok = got == want
             ctx.ob('take_action(%s%s) [%s step %d] board == remove_trapped(move_piece(board))' % (G.name(s), d, 'gold' if gold else 'silver', step),
                    ok, sample=(s == 26 and d == 'Right' and gold))
@@ -202,17 +253,156 @@ def check_take_action_composition(ctx, prog, I, mvs):
             ctx.finding('C02.4', fn, 'pass-board', 'a pass changes the board')
 
 
+def expected_step_board(prog, board, s, d):
+    """The board after the offered step (s, d) from first principles (spec geometry): {field: [64 bits]}.  `board` is the board
+    before the step with the offered-step facts already substituted (source occupied, destination empty on every board)."""
+    f = board_fields(prog, board)
+    dst = G.step(s, d)
+    moved = {}
+    for name in FIELD_VARS:
+        bits_ = list(f[name].bits)
+        bits_[dst] = B.bor(f[name].bits[s], f[name].bits[dst])
+        bits_[s] = C0
+        moved[name] = bits_
+    out = {name: list(moved[name]) for name in FIELD_VARS}
+    for j in G.TRAPS:
+        gold_n = C0
+        silv_n = C0
+        for q in G.neighbours(j):
+            gold_n = B.bor(gold_n, B.band(moved['all'][q], moved['p1'][q]))
+            silv_n = B.bor(silv_n, B.band(moved['all'][q], B.bnot(moved['p1'][q])))
+        friend = B.bite(moved['p1'][j], gold_n, silv_n)
+        cap = B.band(moved['all'][j], B.bnot(friend))
+        for name in FIELD_VARS:
+            out[name][j] = B.band(moved[name][j], B.bnot(cap))
+    return out
+
+
+def equal_on_consistent_boards(x, y):
+    """x and y (exact truth tables over board bits) agree on every assignment in which no board claims a piece on a square that
+    all_pieces calls empty (the representation invariant of C10: every type board and the gold board are subsets of all_pieces)"""
+    if x is y:
+        return True
+    if x.kind not in 'sc' or y.kind not in 'sc':
+        return False
+    vs = sorted(set(B.rawvars(x)) | set(B.rawvars(y)), key=repr)
+    if len(vs) > 18 or any(not (isinstance(v, tuple) and len(v) == 2 and isinstance(v[1], int)) for v in vs):
+        return False
+    idx = {v: k for k, v in enumerate(vs)}
+    subs = [(idx[v], idx[('all', v[1])]) for v in vs if v[0] != 'all' and ('all', v[1]) in idx]
+    for m in range(1 << len(vs)):
+        if any((m >> a) & 1 and not (m >> b) & 1 for a, b in subs):
+            continue
+        asg = {v: (m >> k) & 1 for v, k in idx.items()}
+        if B._ev(x, asg) != B._ev(y, asg):
+            return False
+    return True
+
+
+def check_step_semantics(ctx, prog, mvs, rule='C02.5'):
+    """Public level, independent of how the update is organised internally."""
+    from .rules_hash import exact_equal
+    ctx.rule(rule, 'GameState::take_action(Move(s,d)) on a state where the step is offered (source occupied, destination empty): '
+                   'every bit of the 8 stored bitboards equals the specification - the piece leaves s and arrives on the '
+                   'neighbouring square, afterwards a piece on a trap without a friendly orthogonal neighbour is removed from '
+                   'every board, nothing else changes - compared as exact truth tables (K = 14) over the board bits involved, on all '
+                   'assignments that respect the representation invariant (type and gold boards are subsets of all_pieces)')
+    fn = prog.one('GameState::take_action')
+    if not ctx.anchor('fn GameState::take_action', fn is not None):
+        return
+    kb = inputs.field_index(prog, 'engine::GameState', 'piece_board')
+    # the board part of a step is usually one function PieceBoard::take_action(&self, &Action) -> (PieceBoardState, ..): it is
+    # interpreted directly when it exists (C02.4 ties GameState::take_action's stored board to it); otherwise the public
+    # function itself is interpreted (slower: it also hashes and updates the turn record)
+    bfn = prog.one('PieceBoard::take_action')
+    if bfn is not None:
+        rt = prog.fns[bfn]['locals'][0]
+        if not (rt.startswith('(engine::PieceBoardState') and prog.fns[bfn].get('argc') == 2):
+            bfn = None
+    if bfn is None:
+        mvs = mvs[:6]
+    old_k = B.K
+    B.K = 14
+    try:
+        I2 = inputs.make_interp(prog, fuel=20000000)
+        for (s, d) in mvs:
+            dst = G.step(s, d)
+            asg = {('all', s): 1}
+            for name in FIELD_VARS:
+                asg[(name, dst)] = 0
+            gsv = inputs.subst_lits(inputs.play_state(prog, True, 1, trapped='sym'), asg)
+            st = State({})
+            act = inputs.ref_to(I2, st, 'act', Enum('action::Action', inputs.enum_variant(prog, 'action::Action', 'Move'),
+                                                   (inputs.square(s), inputs.direction(prog, d))))
+            try:
+                if bfn is not None:
+                    pb = inputs.ref_to(I2, st, 'pb', gsv.fields[kb])
+                    r, _ = I2.call_fn(bfn, [pb, act], st)
+                    newb = r.fields[0]
+                else:
+                    gs = inputs.ref_to(I2, st, 'gs', gsv)
+                    r, _ = I2.call_fn(fn, [gs, act], st)
+                    newb = r.fields[kb].fields[0]
+            except Undecided as e:
+                ctx.ob('take_action(%s%s) interpretable with exact tables' % (G.name(s), d), False)
+                ctx.finding('UNDECIDED', fn, 'step-semantics', 'abstract interpretation gave up: %s' % e)
+                return
+            got = board_fields(prog, newb)
+            want = expected_step_board(prog, gsv.fields[kb].fields[0], s, d)
+            bad = None
+            for name in FIELD_VARS:
+                for j in range(64):
+                    g, w = got[name].bits[j], want[name][j]
+                    if g is w or equal_on_consistent_boards(g, w):
+                        continue
+                    bad = (name, j)
+                    break
+                if bad:
+                    break
+            ctx.count('step_semantics_modes')
+            ctx.ob('take_action(%s%s): all 8 x 64 stored bits equal the specified step-then-capture result' % (G.name(s), d), bad is None,
+                   sample=(dst in G.TRAPS and d == 'Up'))
+            if bad:
+                where = 'trap' if bad[1] in G.TRAPS else ('destination' if bad[1] == dst else ('source' if bad[1] == s else 'bystander'))
+                ctx.finding(rule, fn, 'step:%s:%s' % (bad[0], where),
+                            'step %s%s: bit %s of board %s after the step is not what the rules prescribe (%s square)'
+                            % (G.name(s), d, G.name(bad[1]), bad[0], where))
+    finally:
+        B.K = old_k
+
+
+def step_semantics_moves(quick):
+    """steps onto, off and next to traps from every side, plus edge and centre steps"""
+    if not quick:
+        return moves(False)
+    out = []
+    for t in (G.TRAPS[0], G.TRAPS[3]):
+        for dd in inputs.DIRS:
+            n = G.step(t, dd)
+            out.append((t, dd))                       # off the trap
+            back = [x for x in inputs.DIRS if G.step(n, x) == t][0]
+            out.append((n, back))                     # onto the trap
+            side = [x for x in inputs.DIRS if G.step(n, x) not in (t, None)][0]
+            out.append((n, side))                     # a defender leaves
+    out += [(0, 'Right'), (63, 'Up'), (27, 'Left')]
+    return out
+
+
 # ------------------------------------------------------------------------------------------------ C10
-WRITERS_OK = ('PieceBoard::initial', 'PieceBoard::new', 'PieceBoard::move_piece', 'PieceBoard::remove_trapped_pieces')
+# functions whose resulting boards are decided bit by bit by other rules of this check: the constructors (C10.2), the two update
+# helpers (C02.2 / C02.3) and the board step itself (C02.5 decides every stored bit of PieceBoard::take_action's result)
+WRITERS_OK = ('PieceBoard::initial', 'PieceBoard::new', 'PieceBoard::move_piece', 'PieceBoard::remove_trapped_pieces',
+              'PieceBoard::take_action')
 
 
 def check_writers(ctx, prog):
-    ctx.rule('C10.1', 'fields of PieceBoardState are written (assigned or constructed) only in '
-                      'PieceBoard::{initial,new,move_piece,remove_trapped_pieces} and the derived Clone; no reachable '
+    ctx.rule('C10.1', 'fields of PieceBoardState are written (assigned, constructed, or mutably borrowed) only in '
+                      'PieceBoard::{initial,new,move_piece,remove_trapped_pieces,take_action}, the derived Clone, and private helpers that lend '
+                      'mutable references to the fields and are called from those functions only; no reachable '
                       'function returns a mutable reference to a state type')
     n_sites = 0
+    sites = []        # (function, kind, at)
     for name, f in prog.fns.items():
-        allowed = any(name.endswith(w) for w in WRITERS_OK) or (f.get('derived') and (f.get('trait_impl') or '').endswith('Clone'))
         for body in prog.bodies(name):
             for b in body['blocks']:
                 if b.get('cleanup'):
@@ -224,24 +414,50 @@ def check_writers(ctx, prog):
                     rv = s['rv']
                     if rv['k'] == 'agg' and rv.get('adt', '').endswith('PieceBoardState'):
                         site = 'construct'
+                    elif rv['k'] == 'ref' and rv.get('mut') and _writes_pbs_field(prog, body, rv['pl']):
+                        site = 'borrow-mut'
                     else:
-                        ty = body['locals'][s['dst']['l']]
                         p = s['dst']['p']
-                        if p and ('PieceBoardState' in ty) and any(isinstance(e, dict) and 'f' in e for e in p):
-                            # projection path ends in a field of a PieceBoardState value?
+                        if p and any(isinstance(e, dict) and 'f' in e for e in p):
+                            # does the projection path go through a field of a PieceBoardState value (reached from any owner)?
                             if _writes_pbs_field(prog, body, s['dst']):
                                 site = 'assign'
                     if site:
-                        n_sites += 1
-                        ctx.ob('%s %s PieceBoardState in %s' % (site, 'of' if site == 'construct' else 'to a field of', name), allowed)
-                        if not allowed:
-                            ctx.finding('C10.1', name, 'writer:' + site,
-                                        '%s writes PieceBoardState (%s) outside the four board constructors/updaters' % (name, site),
-                                        at=s.get('at'))
+                        sites.append((name, site, s.get('at')))
+    def is_writer(name):
+        f = prog.fns[name]
+        return any(name.endswith(w) for w in WRITERS_OK) or bool(f.get('derived') and (f.get('trait_impl') or '').endswith('Clone'))
+    # private lenders: functions that only take `&mut field` (and hand the references back); every caller must be a writer (or
+    # another lender), and the function must not be public
+    callers = {}
+    for name in prog.fns:
+        for _bi, t in prog.calls(name):
+            c = prog.callee(t)
+            if c in prog.fns:
+                callers.setdefault(c, set()).add(prog.fns[name].get('parent') or name)
+    lender_cache = {}
+
+    def is_lender(name, depth=0):
+        if name in lender_cache:
+            return lender_cache[name]
+        f = prog.fns[name]
+        ok = depth < 4 and all(k == 'borrow-mut' for (n_, k, _a) in sites if n_ == name) and 'Public' not in str(f.get('vis')) \
+            and bool(callers.get(name)) and all(is_writer(c) or is_lender(c, depth + 1) for c in callers.get(name, ()))
+        lender_cache[name] = ok
+        return ok
+    for name, site, at in sites:
+        n_sites += 1
+        allowed = is_writer(name) or is_lender(name)
+        ctx.ob('%s %s PieceBoardState in %s' % (site, 'of' if site == 'construct' else 'to a field of', name), allowed)
+        if not allowed:
+            ctx.finding('C10.1', name, 'writer:' + site,
+                        '%s writes PieceBoardState (%s) outside the four board constructors/updaters' % (name, site), at=at)
+    for name, f in prog.fns.items():
         if f.get('reachable') and f['locals'][0].startswith('&mut ') and any(t in f['locals'][0] for t in ('PieceBoardState', 'PieceBoard', 'GameState', 'PlayPhase')):
             ctx.ob('%s returns %s' % (name, f['locals'][0]), False)
             ctx.finding('C10.1', name, 'returns-mut', 'public function hands out %s' % f['locals'][0])
-    ctx.floor('PieceBoardState write/construct sites', n_sites, 18)
+    # constructors and updaters exist in some form: two constructions and an update of each of the eight boards
+    ctx.floor('PieceBoardState write/construct sites', n_sites, 10)
 
 
 def _writes_pbs_field(prog, body, place):
